@@ -464,8 +464,15 @@ def _is_trace(x):
     return type(x).__name__ == 'Trace'
 
 
+def _one_trace_obs(t_):
+    try:
+        return [list(map(str, t_.names)), [str(x) for x in t_.index], canon(np.asarray(t_.values).tolist())]
+    except Exception as e:  # a record that cannot even be read back
+        return ['unreadable', type(e).__name__]
+
+
 def _trace_obs(m):
-    return [[list(map(str, t_.names)), [str(x) for x in t_.index], canon(np.asarray(t_.values).tolist())] if _is_trace(t_) else None for t_ in m.__dict__['_trace'].tolist()]
+    return [_one_trace_obs(t_) if _is_trace(t_) else None for t_ in m.__dict__['_trace'].tolist()]
 
 
 def _labels_of(t_):
@@ -508,7 +515,11 @@ def _check_traces(A, expected, chk, n, when):
         if [str(x) for x in got_labels] != [str(x) for x in e['labels']]:
             continue
         chk('fidelity/names', list(t_.names) == list(e['names']), {'period': p, 'got': list(t_.names), 'want': list(e['names']), 'when': when})
-        vals = t_.values
+        try:
+            vals = np.asarray(t_.values)
+        except Exception as ex_:
+            chk('fidelity/record-cannot-be-read-back', False, {'period': p, 'exc': type(ex_).__name__, 'when': when})
+            continue
         ok_shape = vals.shape == (len(e['names']), len(e['labels']))
         chk('fidelity/shape', ok_shape, {'period': p, 'got': list(vals.shape), 'want': [len(e['names']), len(e['labels'])]})
         if not ok_shape:
